@@ -13,7 +13,8 @@ K = dict(
     LINK_MTU_AT=66, LINK_MTU2=67, DROP_MASK_DIR=68, FAIR_RUN=69, RECONNECT=70, SERVER_EARLY=71, HOSTILE_AT=72, HOSTILE_KIND=73, HOSTILE_SIDE=74, READ_SERIAL=75, PAD_TO_MTU=76, DGRAM_INTERVAL=77, DGRAM_ALT=78, EARLY_STOP=79, NO_REDO=80, DGRAM_START=81,
     CLEAN=900,   # monitor-only flag: the link is loss-free, in-order, constant-delay
     TWIN=901,    # twin-run variant (C20)
-    DELIVER_SMALL=903,  # monitor-only: every accepted small datagram must be delivered (loss-free path)
+    DELIVER_SMALL=903,
+    ALL_STREAMS_SEEN=904,  # monitor-only: loss-free path, every stream the client opened reaches the server application  # monitor-only: every accepted small datagram must be delivered (loss-free path)
 )
 KN = {v: k for k, v in K.items()}
 
